@@ -91,8 +91,23 @@ def apply_contract(interp, c, func, args, kwargs):
     # what is known about it afterwards is what the (exceptional) postconditions say
     short = c.qname.rpartition(':')[2]
     for key, ty in (c.modifies or {}).items():
+        if isinstance(ty, Dependent):
+            v = ty.make_for_call(interp, '%s@%s' % (key, short), env)
+        else:
+            v = ty.make(interp, '%s@%s' % (key, short)) if isinstance(ty, Ty) else ty
         if key.startswith('ghost:'):
-            st.ghost[key[6:]] = ty.make(interp, '%s@%s' % (key, short)) if isinstance(ty, Ty) else ty
+            st.ghost[key[6:]] = v
+        else:
+            # object field reachable from a parameter: 'self._x', 'self._a._b' (private names written mangled)
+            path = key.split('.')
+            if path[0] not in bound or len(path) < 2:
+                raise Unsupported('modifies entry %r of %s: unknown base' % (key, c.qname))
+            obj = bound[path[0]]
+            for a in path[1:-1]:
+                obj = interp.getattr(obj, a)
+            if isinstance(obj, (SOpt, SChoice)):
+                obj = interp.resolve(obj)
+            interp.setattr(obj, path[-1], v)
 
     def raise_(exc_cls, spec):
         exc = _make_exc(interp, exc_cls, spec, env)
